@@ -349,10 +349,16 @@ impl Drv {
 			self.call(c);
 		}
 	}
-	fn feed_parts(&mut self, buf: &mut [Frame], parts: &[usize]) {
+	/// `grouped`: the parts are the process calls of ONE device callback (the renderer's pattern when a callback is longer than the
+	/// internal buffer: `on_start_processing` once, then one `process` per internal buffer); otherwise every part is a callback
+	fn feed_parts(&mut self, buf: &mut [Frame], parts: &[usize], grouped: bool) {
 		let mut at = 0;
-		for &p in parts {
-			self.call(&mut buf[at..at + p]);
+		for (n, &p) in parts.iter().enumerate() {
+			if grouped && n > 0 {
+				self.fx.process(&mut buf[at..at + p], self.dt, &self.info);
+			} else {
+				self.call(&mut buf[at..at + p]);
+			}
 			at += p;
 		}
 		debug_assert_eq!(at, buf.len());
@@ -624,12 +630,12 @@ fn law_partition_warm(f: usize, ix: &[usize], sr: u32, sigs: &[usize], ev: &mut 
 		for k in 0..128 {
 			let r = pre + 8 * k..pre + 8 * k + 8;
 			da.call(&mut a[r.clone()]);
-			db.feed_parts(&mut b[r], &composition(k));
+			db.feed_parts(&mut b[r], &composition(k), k % 2 == 1);
 		}
 		for (j, parts) in fixed.iter().enumerate() {
 			let r = pre + 1024 + 256 * j..pre + 1024 + 256 * (j + 1);
 			da.feed(&mut a[r.clone()], IBS);
-			db.feed_parts(&mut b[r], parts);
+			db.feed_parts(&mut b[r], parts, j % 2 == 1);
 		}
 		ev.run(&a);
 		ev.run(&b);
@@ -639,11 +645,11 @@ fn law_partition_warm(f: usize, ix: &[usize], sr: u32, sigs: &[usize], ev: &mut 
 					"preroll (identical calls!)".to_string()
 				} else if i < pre + 1024 {
 					let k = (i - pre) / 8;
-					format!("8-frame block {} split as {:?} (reference: one call of 8)", k, composition(k))
+					format!("8-frame block {} split as {:?}{} (reference: one call of 8)", k, composition(k), if k % 2 == 1 { " inside one callback (on_start_processing once, then one process call per part)" } else { "" })
 				} else {
 					let j = (i - pre - 1024) / 256;
 					let p = &fixed[j];
-					format!("256-frame block {} split as {:?}{} (reference: 128+128)", j, &p[..p.len().min(8)], if p.len() > 8 { "..." } else { "" })
+					format!("256-frame block {} split as {:?}{}{} (reference: 128+128)", j, &p[..p.len().min(8)], if p.len() > 8 { "..." } else { "" }, if j % 2 == 1 { " inside one callback" } else { "" })
 				};
 				format!(
 					"{}; input {}; stream = {} preroll frames in calls of {}, then 128 blocks of 8 frames (block k split by the k-th composition of 8), then 6 blocks of 256; two fresh effects fed the same stream first differ at frame {} in {}: reference {:?}, split {:?}",
@@ -671,7 +677,7 @@ fn law_partition_fresh(tier: Tier, f: usize, ix: &[usize], sr: u32, sigs: &[usiz
 		ev.run(&r);
 		for k in 1..128 {
 			let mut y = x.clone();
-			Drv::new(f, ix, sr).feed_parts(&mut y, &composition(k));
+			Drv::new(f, ix, sr).feed_parts(&mut y, &composition(k), k % 4 >= 2);
 			ev.run(&y);
 			if let Some(i) = (0..8).find(|&i| !same(r[i], y[i])) {
 				push(&mut fails, S_PART, || {
